@@ -239,8 +239,8 @@ def replay(beh):
     for i, stp in enumerate(steps):
         got = None
         if i > 0:
-            signal.signal(signal.SIGALRM, _alarm)
-            signal.alarm(5)
+            signal.signal(signal.SIGVTALRM, _alarm)     # CPU time of this process, so machine load cannot fake a hang
+            signal.setitimer(signal.ITIMER_VIRTUAL, 5)
             try:
                 got = apply(stp["op"], stp["args"], S)
             except Hang as e:
@@ -248,7 +248,7 @@ def replay(beh):
             except Exception as e:
                 return i, "raise/" + stp["op"], "%s%s raised %s: %s" % (stp["op"], stp["args"], type(e).__name__, str(e)[:160])
             finally:
-                signal.alarm(0)
+                signal.setitimer(signal.ITIMER_VIRTUAL, 0)
         for s in ("A", "B", "R"):
             msg = check_carrier(s, stp[s], S[s])
             if msg == "STOP":
